@@ -81,9 +81,12 @@ def strict(repo):
     m = need(ws(r"const int r = " + NUM + " ;"), a, "r")
     rr = cint(m.group(1))
     need(ws(r"uint64_t h = seed \^ \( len \* m \) ;"), a, "h = seed ^ (len * m)")
-    m = need(ws(r"const uint64_t \* data = \( const uint64_t \* \) key ; const uint64_t \* end = data \+ \( len / " + NUM + r" \) ;"), a, "block pointer setup")
+    need(ws(r"const size_t ksize = sizeof \( uint64_t \) ;"), a, "ksize = sizeof(uint64_t)")
+    m = need(ws(r"const unsigned char \* data = \( const unsigned char \* \) key ; "
+                r"const unsigned char \* end = data \+ \( std::size_t \) \( len / " + NUM + r" \) \* ksize ;"), a, "block pointer setup")
     block = cint(m.group(1))
-    need(ws(r"while \( data != end \) \{ uint64_t k = \*data\+\+ ; k \*= m ; k \^= k >> r ; k \*= m ; h \^= k ; h \*= m ; \}"), a, "block loop")
+    need(ws(r"while \( data != end \) \{ uint64_t k ; memcpy \( &k , data , ksize \) ; data \+= ksize ; "
+            r"k \*= m ; k \^= k >> r ; k \*= m ; h \^= k ; h \*= m ; \}"), a, "block loop")
     need(ws(r"const unsigned char \* data2 = \( const unsigned char \* \) data ;"), a, "data2")
     sw = need(ws(r"switch \( len & " + NUM + r" \) \{(.*?)\} ;? h \^= h >> r ; h \*= m ; h \^= h >> r ; return h ; \}"), a, "tail switch + finalisation")
     tail_mask = cint(sw.group(1))
